@@ -1,5 +1,6 @@
 import HpackVerif.Proofs.Connection
 import HpackVerif.Proofs.C09
+import HpackVerif.Proofs.EncBounds
 import HpackVerif.Proofs.DecProof2
 import HpackVerif.Impl.Api
 /-! Shared by the property files: facts about the integer cap read from the source, and the states an
@@ -17,6 +18,12 @@ set_option maxRecDepth 100000 in
 theorem capOK : CapOK capN := by unfold CapOK; decide +kernel
 /-- the cap admits the ten continuation octets a 64-bit value can need (C05 / C11 latitude) -/
 theorem cap_admits_64 : 63 ≤ capN := by decide
+
+/-- … in the form the encoder-side bounds use -/
+theorem cap64 : Cap64 Gen.intCap := by
+  intro c hc
+  rw [cap_eq] at hc; cases hc
+  exact cap_admits_64
 
 /-! ### reachable Decoder states -/
 /-- what an application can do to a `Decoder` -/
